@@ -1,9 +1,11 @@
 package c08
 
 import (
+	"bytes"
 	"errors"
 	"fmt"
 	"io"
+	"sort"
 	"strings"
 	"testing"
 
@@ -39,7 +41,7 @@ type Case struct {
 	Nest      int            `json:"nest,omitempty"` // MultiRowGroup: 0 flat, 1 Multi(Multi(head), tail...), 2 Multi(first, Multi(rest)), 3 Multi(Multi(a), Multi(b))
 }
 
-var kinds = []string{"rowgroup.Rows", "rowgroup.Rows", "Reader", "Pages", "Pages", "MultiRowGroup", "Buffer", "Column.Pages", "ConvertRowReader(forward-only)"}
+var kinds = []string{"rowgroup.Rows", "rowgroup.Rows", "Reader", "Pages", "Pages", "MultiRowGroup", "Buffer", "Column.Pages", "ConvertRowReader(forward-only)", "MergeRowGroups.Rows(forward-only)"}
 
 // readOnly hides every method of a row reader but ReadRows: ConvertRowReader
 // then provides forward seeks by reading and discarding rows.
@@ -59,7 +61,7 @@ func genCase(t *rapid.T) Case {
 	c.Kind = kinds[rapid.IntRange(0, len(kinds)-1).Draw(t, "kind")]
 	c.Col = rapid.IntRange(0, len(cols)-1).Draw(t, "col")
 	c.Nest = rapid.IntRange(0, 3).Draw(t, "nest")
-	if (c.Kind == "MultiRowGroup" || c.Kind == "Column.Pages") && c.Opts.MaxRows == 0 {
+	if (c.Kind == "MultiRowGroup" || c.Kind == "Column.Pages" || c.Kind == "MergeRowGroups.Rows(forward-only)") && c.Opts.MaxRows == 0 {
 		c.Opts.MaxRows = int64([]int{7, 20, 64}[rapid.IntRange(0, 2).Draw(t, "mmr")])
 	}
 	c.SkipIndex = rapid.IntRange(0, 3).Draw(t, "skipindex") == 0
@@ -91,6 +93,38 @@ func genCase(t *rapid.T) Case {
 		}
 	}
 	return c
+}
+
+// writeSorted writes the rows, sorted by the first non-repeated leaf (by the
+// library's own sorting buffer), with the case's options.
+func writeSorted(c Case, cols []ref.Column, prows []parquet.Row) ([]byte, error) {
+	schema := pq.BuildSchema(&c.Schema)
+	for _, col := range cols {
+		if col.MaxRep == 0 {
+			b := parquet.NewBuffer(schema, parquet.SortingRowGroupConfig(parquet.SortingColumns(parquet.Ascending(col.Path...))))
+			if _, err := b.WriteRows(prows); err != nil {
+				return nil, err
+			}
+			sort.Sort(b)
+			r := b.Rows()
+			sorted, err := pq.ReadAllRows(r, 64)
+			r.Close()
+			if err != nil {
+				return nil, err
+			}
+			prows = sorted
+			break
+		}
+	}
+	var buf bytes.Buffer
+	w := parquet.NewWriter(&buf, append([]parquet.WriterOption{schema}, pq.Options(c.Opts, cols, "")...)...)
+	if _, err := w.WriteRows(prows); err != nil {
+		return nil, err
+	}
+	if err := w.Close(); err != nil {
+		return nil, err
+	}
+	return buf.Bytes(), nil
 }
 
 // target resolves a seek op to a row number in [0, n].
@@ -151,7 +185,14 @@ func runCase(c Case, o *kit.Obs) *kit.Failure {
 			feat = strings.Replace(feat, "}", ",encrypted}", 1)
 			o.Class("encrypted")
 		}
-		data, err := pq.WriteFileWith(&c.Schema, cols, rows, c.Opts, nil, wo...)
+		var data []byte
+		var err error
+		if c.Kind == "MergeRowGroups.Rows(forward-only)" {
+			// the rows sorted by the merge key (the first non-repeated leaf), so that every row group is
+			data, err = writeSorted(c, cols, prows)
+		} else {
+			data, err = pq.WriteFileWith(&c.Schema, cols, rows, c.Opts, nil, wo...)
+		}
 		if err != nil {
 			o.Rejected()
 			return nil
@@ -269,6 +310,47 @@ func runCase(c Case, o *kit.Obs) *kit.Failure {
 			pageStarts(g, base)
 			base += g.NumRows()
 		}
+	case "MergeRowGroups.Rows(forward-only)":
+		// the row groups of the file merged without sorting columns; the model is a
+		// sequential read of a fresh reader of the same merged row group
+		if len(f.RowGroups()) == 0 {
+			o.Class("no-rowgroup")
+			return nil
+		}
+		// a sorting column makes it a k-way merge (without one the row groups are concatenated)
+		var sorting []parquet.SortingColumn
+		for _, col := range cols {
+			if col.MaxRep == 0 {
+				sorting = append(sorting, parquet.Ascending(col.Path...))
+				break
+			}
+		}
+		if sorting == nil {
+			o.Class("no-sortable-column")
+			return nil
+		}
+		merged, err := parquet.MergeRowGroups(f.RowGroups(), parquet.SortingRowGroupConfig(parquet.SortingColumns(sorting...)))
+		if err != nil {
+			return kit.Failf("c08/merge-error", "%v", err)
+		}
+		fresh := merged.Rows()
+		all, err := pq.ReadAllRows(fresh, 50)
+		fresh.Close()
+		if err != nil || len(all) != len(rows) {
+			return kit.Failf("c08/merge-read"+feat, "sequential read of the merged row group: %d rows of %d, %v", len(all), len(rows), err)
+		}
+		streams, err := pq.Streams(cols, all)
+		if err != nil {
+			return kit.Failf("c08/merge-read"+feat, "%v", err)
+		}
+		if wantRows, err = ref.SplitRows(streams); err != nil {
+			return kit.Failf("harness/split", "%v", err)
+		}
+		r := merged.Rows()
+		defer r.Close()
+		rr = r
+		forwardOnly = true
+		o.ClassIf(len(f.RowGroups()) >= 2, "merged>=2-rowgroups")
 	default: // one row group: the last one (so its model slice does not start at 0 when there are several)
 		gs := f.RowGroups()
 		if len(gs) == 0 {
